@@ -122,7 +122,7 @@ func (v *StructSchema) process(ctx *p.SchemaCtx) {
 		if !ok {
 			panic(fmt.Sprintf("Struct is missing expected schema key: %s\n see the zog FAQ for more info", key))
 		}
-		destPtr := structVal.FieldByName(key).Addr().Interface()
+		destPtr := fieldByIndexAlloc(structVal, fieldMeta.Index).Addr().Interface()
 
 		subValue, fieldKey := dataProv.GetByField(fieldMeta, originalKey)
 		if _, ok := processor.(*StructSchema); ok {
@@ -283,5 +283,20 @@ func (v *StructSchema) Test(t Test) *StructSchema {
 func (v *StructSchema) TestFunc(testFunc BoolTFunc, options ...TestOption) *StructSchema {
 	test := p.NewTestFunc("", testFunc, options...)
 	v.Test(*test)
+	return v
+}
+
+// like reflect.Value.FieldByIndex, but allocates the nil embedded pointers on the way to a promoted field (as encoding/json does
+// when it decodes into one) instead of panicking
+func fieldByIndexAlloc(v reflect.Value, index []int) reflect.Value {
+	for i, x := range index {
+		if i > 0 && v.Kind() == reflect.Pointer {
+			if v.IsNil() && v.CanSet() {
+				v.Set(reflect.New(v.Type().Elem()))
+			}
+			v = v.Elem()
+		}
+		v = v.Field(x)
+	}
 	return v
 }
